@@ -149,6 +149,23 @@ func getOrCreateAndAppendField(c *[]CollectedField, name, alias string, objectDe
 					return &(*c)[i]
 				}
 			}
+			// a union has no fields of its own: whatever was selected through a union type
+			// condition (__typename) belongs to its member types
+			for _, member := range objectDefinition.Types {
+				if member == cf.ObjectDefinition.Name {
+					return &(*c)[i]
+				}
+			}
+			for _, member := range cf.ObjectDefinition.Types {
+				if member == objectDefinition.Name {
+					return &(*c)[i]
+				}
+			}
+			// two abstract type conditions that both apply select the same field of the
+			// same concrete object
+			if isAbstract(cf.ObjectDefinition) && isAbstract(objectDefinition) {
+				return &(*c)[i]
+			}
 		}
 	}
 
@@ -156,6 +173,10 @@ func getOrCreateAndAppendField(c *[]CollectedField, name, alias string, objectDe
 
 	*c = append(*c, f)
 	return &(*c)[len(*c)-1]
+}
+
+func isAbstract(def *ast.Definition) bool {
+	return def.Kind == ast.Interface || def.Kind == ast.Union
 }
 
 func shouldIncludeNode(directives ast.DirectiveList, variables map[string]any) bool {
